@@ -3,6 +3,7 @@ CONSTANTS
   WBITS = 5
   Bug_AtWraps = FALSE
   Bug_IntervalWraps = FALSE
-  PROP = "ALL"
-INVARIANT Explained
+  TIER = "quick"
+ACTION_CONSTRAINT Emit
+INVARIANTS EvalOK UnOK BinOK LinOK NewOK
 CHECK_DEADLOCK FALSE
